@@ -19,6 +19,7 @@ Events
 import collections
 import copy
 import os
+import sys
 import traceback
 
 from . import canon as canon_mod
@@ -225,6 +226,21 @@ class Ref:
                     self._detach_for(o, hd["path"], op, args, node)
             self.revalidate()
             return exp, info
+        if t == "fop":
+            # the save of this mutator fails (ENOSPC at the atomic replace): it must raise OSError and the resource keeps
+            # its content; positions the operation would have reassigned through this object are beyond the guarantee
+            # for retained children (the in-memory tree was modified before the save failed)
+            _, h, op, args = ev
+            hd = self.handles[h]
+            o = hd["obj"]
+            r = self.obj_res[o]
+            assert not self.obj_buffered(o) and self.logical(r) is not ABSENT
+            node = copy.deepcopy(get_at(self.logical(r), hd["path"]))
+            exp = ref_apply(node, op, args, dotted_forbidden=self.attr)
+            if exp.mode in ("ok", "popitem"):
+                self._detach_for(o, hd["path"], op, args, node)
+            self.revalidate()
+            return Expect("exc", exc=OSError), info
         if t == "opx":
             # a multi-element mutator whose argument is valid up to a point and then forbidden: it must raise a
             # TypeError/ValueError; how much of the valid part was applied before is unspecified by any property,
@@ -452,6 +468,29 @@ class World:
         if t in ("op", "opx"):
             _, h, op, args = ev
             return model.impl_apply(self.handle_objs[h], op, args, self.mk_synced)
+        if t == "fop":
+            # a mutator whose save fails ONCE: the first os.replace made by library code raises ENOSPC
+            _, h, op, args = ev
+            import errno as _errno
+            real = os.replace
+            state = {"fired": False}
+
+            def failing(src, dst, *a, **kw):
+                f = sys._getframe(1)
+                if not state["fired"] and f.f_code.co_filename.startswith(env.LIBDIR):
+                    state["fired"] = True
+                    try:
+                        os.unlink(src)
+                    except OSError:
+                        pass
+                    raise OSError(_errno.ENOSPC, os.strerror(_errno.ENOSPC), str(dst))
+                return real(src, dst, *a, **kw)
+
+            os.replace = failing
+            try:
+                return model.impl_apply(self.handle_objs[h], op, args, self.mk_synced)
+            finally:
+                os.replace = real
         if t == "nav":
             _, h, key = ev
             child = self.handle_objs[h][key]
@@ -597,7 +636,7 @@ def execute(cfg, history, oracles, hooks=None, keep_world=False, alphabet=None):
             if last:
                 res.outcome = outcome
                 v = res.violations
-                if ev[0] in ("op", "opx") and "result" in oracles:
+                if ev[0] in ("op", "opx", "fop") and "result" in oracles:
                     why = check_result(exp, outcome, info.get("node_before"))
                     if why:
                         v.append(("result", "%r: %s" % (ev, why)))
